@@ -1,10 +1,10 @@
-\* generated by spec/getter/gen_cfgs.sh -- MC_cases_cascade
+\* generated by spec/getter/gen_cfgs.sh -- MC_casesq_single
 SPECIFICATION Spec
 CONSTANTS
   ReqTypes <- TypesAll
   NItems = 1
   MaxAnswers = 2
-  Chains <- ChainsCascade
+  Chains <- ChainsDirect
   NPeers = 3
   BlockStores <- StoresAll
   ClearOnFail = TRUE
